@@ -146,99 +146,14 @@ def _history(ctx):
 
 # ---------------------------------------------------------------------------
 def _onset(ctx):
+    """What get_transitions / PYTZ.create_timezone compute on abstract VTIMEZONEs
+    (sa/tzmodel.py) against the RFC 5545 3.6.5 oracle."""
+    from .. import tzmodel
     m = ctx.model
-    tz = m.cls("cal.Timezone")
-    ex = tz.methods.get("_extract_offsets")
-    gt = tz.methods.get("get_transitions")
-    if ex is None or gt is None:
-        raise AnalysisError("anchor vanished: Timezone._extract_offsets/get_transitions")
-    env = SymEnv(ex.node)
-    # the transition tuple built per onset
-    tuples = []
-    for n in ast.walk(ex.node):
-        if isinstance(n, (ast.ListComp, ast.GeneratorExp)) and isinstance(n.elt, ast.Tuple) \
-                and len(n.elt.elts) == 4:
-            tuples.append(n)
-    if len(tuples) != 1:
-        raise AnalysisError("_extract_offsets: the (transtime, from, to, name) tuple was not found")
-    st = env.stmt_of(tuples[0])
-    elts = [env.expand_at(e, st) for e in tuples[0].elt.elts]
-    d1, d2 = dump(elts[1]), dump(elts[2])
-    ok_from = "TZOFFSETFROM" in d1 and "TZOFFSETTO" not in d1
-    ok_to = "TZOFFSETTO" in d2 and "TZOFFSETFROM" not in d2
-    ctx.check(ok_from, "C12/ONSET-FROM", "transition tuple carries TZOFFSETFROM at position 1",
-              f"the second element of the transition tuple derives from `{d1[:70]}`; it must "
-              f"derive from the observance's TZOFFSETFROM (the offset in force before the onset)",
-              ex.loc(st), detail="component.TZOFFSETFROM (rounded to the minute)")
-    ctx.check(ok_to, "C12/ONSET-FROM", "transition tuple carries TZOFFSETTO at position 2",
-              f"the third element derives from `{d2[:70]}`; it must derive from TZOFFSETTO",
-              ex.loc(st), detail="component.TZOFFSETTO (rounded to the minute)")
-    # RRULE expansion anchored in TZOFFSETFROM
-    reps = [c for c in ast.walk(ex.node) if isinstance(c, ast.Call) and isinstance(c.func, ast.Attribute)
-            and c.func.attr == "replace" and any(k.arg == "tzinfo" for k in c.keywords)
-            and not (isinstance(next(k.value for k in c.keywords if k.arg == "tzinfo"), ast.Constant))]
-    if not reps:
-        raise AnalysisError("_extract_offsets: dtstart.replace(tzinfo=…) for the RRULE start not found")
-    tzi = env.expand_at(next(k.value for k in reps[0].keywords if k.arg == "tzinfo"))
-    dt = dump(tzi)
-    ctx.check("TZOFFSETFROM" in dt and "TZOFFSETTO" not in dt, "C12/ONSET-FROM",
-              "RRULE expansion anchored at TZOFFSETFROM",
-              f"the recurrence start is given the tzinfo `{dt[:80]}`; UNTIL (UTC) and the "
-              f"weekday rules must be evaluated in the offset in force before the onset "
-              f"(TZOFFSETFROM), otherwise the last onset of a rule with UNTIL is dropped for "
-              f"zones east of UTC", ex.loc(reps[0]), witness="RRULE with UNTIL, TZOFFSETFROM:+0100",
-              detail="tzoffset(…, TZOFFSETFROM)")
-    # get_transitions: utc onset = local - element[1]; stored offset = element[2]
-    envg = SymEnv(gt.node)
-    subs = []
-    for n in ast.walk(gt.node):
-        if isinstance(n, (ast.ListComp, ast.GeneratorExp)) and isinstance(n.elt, ast.BinOp) \
-                and isinstance(n.elt.op, ast.Sub) and isinstance(n.generators[0].target, ast.Tuple):
-            subs.append(n)
-    if len(subs) != 1:
-        raise AnalysisError("get_transitions: `local onset - offset` comprehension not found")
-    lc = subs[0]
-    tgt = [e.id if isinstance(e, ast.Name) else None for e in lc.generators[0].target.elts]
-    minuend = lc.elt.left.id if isinstance(lc.elt.left, ast.Name) else None
-    subtr = lc.elt.right.id if isinstance(lc.elt.right, ast.Name) else None
-    it_ok = isinstance(lc.generators[0].iter, ast.Name)
-    ok = it_ok and minuend in tgt and subtr in tgt and tgt.index(minuend) == 0 and tgt.index(subtr) == 1
-    ctx.check(ok, "C12/ONSET-FROM", "UTC onset = local onset - TZOFFSETFROM",
-              f"transition_times subtracts tuple element {tgt.index(subtr) if subtr in tgt else '?'} "
-              f"from element {tgt.index(minuend) if minuend in tgt else '?'}; the UTC onset is the "
-              f"local onset (element 0) minus TZOFFSETFROM (element 1), not TZOFFSETTO",
-              gt.loc(lc), detail="transtime - osfrom")
-    # the same list feeds both computations and is sorted first
-    src = lc.generators[0].iter.id if it_ok else None
-    sorted_first = any(isinstance(c, ast.Call) and isinstance(c.func, ast.Attribute) and c.func.attr == "sort"
-                       and isinstance(c.func.value, ast.Name) and c.func.value.id == src
-                       and c.lineno < lc.lineno for c in ast.walk(gt.node))
-    ctx.check(sorted_first, "C12/ONSET-FROM", "transitions sorted before use",
-              "the transitions must be sorted by local onset before the UTC onsets and the "
-              "transition info are derived (both lists must be index-aligned)", gt.loc(),
-              detail="transitions.sort()")
-    info = [c for c in ast.walk(gt.node) if isinstance(c, ast.Call) and isinstance(c.func, ast.Attribute)
-            and c.func.attr == "append" and c.args and isinstance(c.args[0], ast.Tuple)
-            and len(c.args[0].elts) == 3]
-    ok_info = False
-    for c in info:
-        loop = next((l for l in ast.walk(gt.node) if isinstance(l, ast.For)
-                     and any(x is c for x in ast.walk(l))), None)
-        if loop is not None and isinstance(loop.target, ast.Tuple):
-            inner = loop.target.elts[-1]
-            names = [e.id if isinstance(e, ast.Name) else None
-                     for e in (inner.elts if isinstance(inner, ast.Tuple) else loop.target.elts)]
-            first = c.args[0].elts[0]
-            ok_info = isinstance(first, ast.Name) and first.id in names and names.index(first.id) == 2
-    ctx.check(ok_info, "C12/ONSET-FROM", "observance offset = TZOFFSETTO",
-              "the utcoffset stored for an observance must be tuple element 2 (TZOFFSETTO)",
-              gt.loc(), detail="transition_info.append((osto, dst_offset, name))")
-    # STANDARD -> dst 0, DAYLIGHT -> dst flag
-    srcx = dump(ex.node)
-    ctx.check("'STANDARD'" in srcx and "'DAYLIGHT'" in srcx, "C12/ONSET-FROM",
-              "STANDARD/DAYLIGHT distinguished by component name",
-              "_extract_offsets must classify the observance by its component name", ex.loc(),
-              detail="is_dst = 0 / 1")
+    gt = m.lookup_method(m.cls("cal.Timezone"), "get_transitions")
+    if gt is None:
+        raise AnalysisError("anchor vanished: Timezone.get_transitions")
+    tzmodel.report(ctx, "C12/ONSET-MODEL", gt.loc(), 20)
 
 
 # ---------------------------------------------------------------------------
